@@ -315,3 +315,6 @@ func ParallelFor(n, workers int, f func(i int)) {
 	close(ch)
 	wg.Wait()
 }
+
+// Count increments a distribution bucket.
+func (r *Result) Count(key string) { r.mu.Lock(); r.Dist[key]++; r.mu.Unlock() }
